@@ -157,6 +157,10 @@ ACLDomainData::parse()
 {
     while (char *t = ConfigParser::strtokFile()) {
         Tolower(t);
+        // the comparison functions treat exactly one leading dot as the
+        // sub-domain marker: "..example.com" means ".example.com"
+        while (t[0] == '.' && t[1] == '.')
+            ++t;
         Acl::SplayInserter<char*>::Merge(domains, xstrdup(t));
     }
 }
